@@ -112,7 +112,7 @@ pub fn ref_parse(line: &str, env: Env) -> Option<Parsed> {
     let timing_change = f.get(6).is_none_or(|s| s.starts_with('1'));
     let (mut kiai, mut omit) = (false, false);
     if let Some(s) = f.get(7) {
-        let flags: i32 = s.parse().ok()?;
+        let flags: i32 = s.trim().parse().ok()?;
         kiai = flags & 1 != 0;
         omit = flags & 8 != 0;
     }
